@@ -128,7 +128,15 @@ def check_row_numbers_positional(model: RepoModel, rep, RID: str, rel: str = "ut
                 in_then = any(x is s for b in i.body for x in ast.walk(b))
                 in_else = any(x is s for b in i.orelse for x in ast.walk(b))
                 leaves = bool(i.body) and isinstance(i.body[-1], (ast.Return, ast.Raise, ast.Continue))
-                after = s.lineno > i.end_lineno and leaves and not neg
+                # "after the returning then-arm": decided on the statement lists, not on line numbers (the model may have lifted an else arm)
+                follows = False
+                for holder in ast.walk(f.node):
+                    for fld in ("body", "orelse", "finalbody"):
+                        lst = getattr(holder, fld, None)
+                        if isinstance(lst, list) and any(x is i for x in lst):
+                            k_ = next(n_ for n_, x in enumerate(lst) if x is i)
+                            follows = follows or any(y is s for later in lst[k_ + 1:] for y in ast.walk(later))
+                after = follows and leaves and not neg
                 if (in_else and not neg) or (in_then and neg) or after:
                     guarded = True
             if guarded:
